@@ -101,7 +101,23 @@ def put(z, x, n0, c0, lay):
     z[tuple(idx)] = x[tuple(idx)]
 
 
-def oracle_linear(ck, kind, force_sym=None, zero_k=None, cover=None, absent_low=False):
+def shape_first_item(t, lay, how):
+    """batch item 0 made 'grey' (every channel a copy of channel 0), identically zero or constant; the other items untouched"""
+    if t is None or how is None:
+        return t
+    an, ac = nc_axes(t, lay)
+    t = np.array(t, copy=True)
+    tt = np.moveaxis(t, (an, ac), (0, 1))
+    if how == 'grey':
+        tt[0, :] = tt[0, 0:1]
+    elif how == 'zero':
+        tt[0] = 0
+    elif how == 'const':
+        tt[0] = 3
+    return t
+
+
+def oracle_linear(ck, kind, force_sym=None, zero_k=None, cover=None, absent_low=False, first_item=None):
     rng = ck.rng
     mt = make_transform(ck, kind, force_sym, cover)
     name, shapes, call, tol = mt[:4]
@@ -113,6 +129,9 @@ def oracle_linear(ck, kind, force_sym=None, zero_k=None, cover=None, absent_low=
     elif len(xs) > 1 and rng.random() < 0.4:
         # one argument of x is present but identically zero (a thresholded band): still an ordinary linear input
         k = rng.randrange(len(xs)); xs[k] = np.zeros_like(xs[k])
+    if first_item is not None:       # value-dependent structure in ONE batch item must not leak into the others
+        xs = [shape_first_item(x, lay, first_item) for x in xs]; ys = [shape_first_item(y, lay, first_item) for y in ys]
+        name += ' item0=' + first_item
     if absent_low:                   # the documented "no low-pass" call of the inverse DTCWT: linear in the band-pass levels alone
         xs[0] = None; ys[0] = None
         name += ' low-pass absent'
@@ -172,6 +191,9 @@ def run(ck):
     for kind in KINDS:
         for cov in ((2, 3, 2), (1, 2, 3)):
             rt.guard(ck, oracle_linear, ck, kind, None, None, cov)
+        # the first batch item grey / zero / constant, the LAST item and channel looked at
+        for how in ('grey', 'zero', 'const'):
+            rt.guard(ck, oracle_linear, ck, kind, None, None, (2, 3, 2), False, how)
     for cov in ((2, 3, 2), (1, 2, 1)):
         rt.guard(ck, oracle_linear, ck, 'DTCWTInverse', None, None, cov, True)
     for it in range(70 if q else 700):
